@@ -574,7 +574,7 @@ impl SubCheck for Batches {
 
 pub fn check(ctx: &mut Ctx) {
 	ctx.rule = "arrays of 0..12 (quick) / 0..40 (thorough) entries over {valid call (echo/typed/fail/big/unknown/blocking/panicking), notification, invalid object with/without recoverable id, \
-		non-objects incl. the array-of-member-values form, duplicate ids, subscribe/unsubscribe calls (WS, driven by handler actors)} x BatchRequestConfig {Disabled, Limit(0..5), Unlimited} x {HTTP, WS}; \
+		non-objects incl. the array-of-member-values form, duplicate ids, subscribe/unsubscribe calls (WS, driven by handler actors)} x BatchRequestConfig {Disabled, Limit(0..5), Unlimited} x {HTTP, WS} x entry point {TowerService, low-level http::call_with_service_builder + ws::connect, set_http_middleware}; \
 		all permutations of batches of 2..4 entries; broken array texts. Oracle = per-entry classification by the own classifier, expected replies from the handler model, bipartite matching of replies to entries (order not required), \
 		the same entry sent alone (metamorphic), invocation log multiset. Non-trivial = >= 2 entries of >= 2 classes; distinct by case value."
 		.into();
